@@ -20,6 +20,10 @@ CHECKS["C16"] = ("exploration", "differential monitor: consensus script library 
   "every script of the seeded stream (three templates with boundary frozen periods and legal/illegal binding targets, eight mutation kinds, random bytes ≤300 B) is read by the wallet and by the consensus library and all accessors are compared; panics are caught per call",
   "mass-core is the reference and is trusted; staking maturity for frozen period 2^64-1 unspecified", "§5 C16")
 
+CHECKS["C11"] = ("exploration", "reference-model monitor (nested in-memory map with pending overlay) after every operation + porcupine linearizability check of concurrent transaction histories + Go race detector on a tenth of them",
+  "sequential: every Get/GetByPrefix/BucketNames/iterator/Seek result and every error return of the real ldb driver on on-disk LevelDB is compared with the model across commit, rollback, error-return and close/reopen; concurrent: recorded call/return histories of whole transactions must be linearizable w.r.t. a sequential map",
+  "trusts the 60-line map model and porcupine; iterators checked on committed data only; bucket re-creation error code not demanded", "§5 C11")
+
 NOT_APPLICABLE = {}
 
 def main():
